@@ -285,6 +285,11 @@ pub enum Op {
     JoinDiscard,
     /// ... or poll the oldest kept join future once and keep it if it is still pending
     JoinPoll,
+    /// ... or hand the oldest kept join future to a helper task of its own that awaits it (two
+    /// joins can then be pending at the same time in different tasks) ...
+    JoinSpawn,
+    /// ... and wait for the oldest such helper and take its result
+    JoinCollect,
 
     // ---- handle manipulation
     Clone { h: Slot, to: Slot },
